@@ -413,6 +413,14 @@ def build_replay(pid, contract, ob_name, meta, model, verdict_raw):
         lines += ["print('NO-FAILING-INPUT: no native call template for this function')", "sys.exit(2)"]
     else:
         lines += [
+            "# pre-state of a molecules receiver (native clauses may refer to _old_rot / _old_pos)",
+            "_old_rot = _old_pos = None",
+            "try:",
+            "    _s = args.get('self')",
+            "    if _s is not None and hasattr(_s, 'rotator') and hasattr(_s, 'pos'):",
+            "        _old_rot = np.array(_s.rotator.as_matrix(), copy=True); _old_pos = np.array(_s.pos, copy=True)",
+            "except Exception:",
+            "    pass",
             "raised = None; result = None",
             "try:",
             f"    result = {call}",
@@ -420,6 +428,7 @@ def build_replay(pid, contract, ob_name, meta, model, verdict_raw):
             "    raised = e",
             "print('result:', result if raised is None else None, '| raised:', repr(raised))",
             "env = dict(HELPERS); env.update(getattr(_c, 'native_helpers', None) or _c.helpers); env.update(args); env['result'] = result",
+            "env.update({'_old_rot': _old_rot, '_old_pos': _old_pos, '_mod': _mod})",
             "env.update({'model': model, 'np': np, 'max': max, 'min': min, 'abs': abs, 'len': len, 'all': all, 'any': any, 'int': int, 'float': float, 'round': round, 'slice': slice, 'tuple': tuple, 'zip': zip, 'range': range, 'sum': sum, 'isinstance': isinstance})",
         ]
         clause = meta.get("clause", "")
